@@ -323,10 +323,13 @@ impl SwiftField for Field52AccountServicingInstitution {
                 let field = Field52C::parse(value)?;
                 Ok(Field52AccountServicingInstitution::C(field))
             }
-            _ => {
-                // No variant specified, fall back to default parse behavior
+            None => {
+                // No option letter given: the option is inferred from the content
                 Self::parse(value)
             }
+            Some(other) => Err(ParseError::InvalidFormat {
+                message: format!("Field 52 has no option {}", other),
+            }),
         }
     }
 
@@ -386,10 +389,13 @@ impl SwiftField for Field52OrderingInstitution {
                 let field = Field52D::parse(value)?;
                 Ok(Field52OrderingInstitution::D(field))
             }
-            _ => {
-                // No variant specified, fall back to default parse behavior
+            None => {
+                // No option letter given: the option is inferred from the content
                 Self::parse(value)
             }
+            Some(other) => Err(ParseError::InvalidFormat {
+                message: format!("Field 52 has no option {}", other),
+            }),
         }
     }
 
@@ -469,10 +475,13 @@ impl SwiftField for Field52CreditorBank {
                 let field = Field52D::parse(value)?;
                 Ok(Field52CreditorBank::D(field))
             }
-            _ => {
-                // No variant specified, fall back to default parse behavior
+            None => {
+                // No option letter given: the option is inferred from the content
                 Self::parse(value)
             }
+            Some(other) => Err(ParseError::InvalidFormat {
+                message: format!("Field 52 has no option {}", other),
+            }),
         }
     }
 
@@ -543,10 +552,13 @@ impl SwiftField for Field52DrawerBank {
                 let field = Field52D::parse(value)?;
                 Ok(Field52DrawerBank::D(field))
             }
-            _ => {
-                // No variant specified, fall back to default parse behavior
+            None => {
+                // No option letter given: the option is inferred from the content
                 Self::parse(value)
             }
+            Some(other) => Err(ParseError::InvalidFormat {
+                message: format!("Field 52 has no option {}", other),
+            }),
         }
     }
 
